@@ -120,3 +120,39 @@ func VerifC04_FailoverAfterLegacyLearned() {
 		verif_Assert(err == nil && got, "when the address in use goes down the other address of the same legacy publisher answers")
 	}
 }
+
+// C04 (stream resets): a reset request is retried once — not more. A publisher
+// that keeps resetting makes the fetch fail after exactly two attempts (so the
+// sync fails, is notified and releases the publisher's handler); a later fetch,
+// once the publisher answers, succeeds.
+func VerifC04_ResetRetryBounded() {
+	resets := verif_Choose("consecutiveResets", 1, 4)
+	nreq, perFetch := 0, 0
+	rt := &vRT{fn: func(req *http.Request) (*http.Response, error) {
+		nreq++
+		perFetch++
+		verif_Assert(perFetch <= 2, "one fetch makes at most two attempts on a resetting connection")
+		if perFetch > 2 {
+			return nil, context.Canceled // (stop the runaway loop of a broken retry limit)
+		}
+		if nreq <= resets {
+			return nil, network.ErrReset
+		}
+		return vResp(http.StatusOK, []byte("x")), nil
+	}}
+	s := &Syncer{client: &http.Client{Transport: rt}, rootURL: vURL("http://a.example/ipni/v1/ad"), sync: &Sync{}}
+	got := false
+	err := s.fetch(context.Background(), "head", func(io.Reader) error { got = true; return nil })
+	verif_Reach("first fetch returned")
+	if resets == 1 {
+		verif_Assert(err == nil && got, "a single reset is absorbed by the one retry")
+	} else {
+		verif_Assert(err != nil && !got, "a connection that is reset again on the retry fails the fetch")
+	}
+	// later fetches, until the publisher answers
+	for i := 0; i < 3 && (err != nil || i == 0); i++ {
+		perFetch, got = 0, false
+		err = s.fetch(context.Background(), "head", func(io.Reader) error { got = true; return nil })
+	}
+	verif_Assert(err == nil && got, "once the publisher stops resetting a fetch succeeds")
+}
